@@ -2,6 +2,7 @@ import QuiverModel.Theorems.C04
 import QuiverModel.Lemmas.Sys.Commute
 import QuiverModel.Lemmas.Sys.Kahn
 import QuiverModel.Lemmas.Sys.Stream
+import QuiverModel.Lemmas.Sys.Uniq
 /-
 C03 — Results do not depend on scheduling, worker count or time-slice length.
 
@@ -374,6 +375,74 @@ theorem confluence_confluent_partial (ρ : Nat → Nat → Nat) (ar : Nat → Na
     (not_preStart_of_idle hi1) (not_preStart_of_idle hi2) k r r' h1 h2
   rw [this]; exact h2
 
+/-- **Determinacy of the confluent class from STATIC hypotheses only**: script table with a
+register typing (`RegTyping`: every select one process source or one receive — plain, typed or
+filter), one sender script per mailbox (`SingleSenderTable`), every script spawned at one place
+(`SpawnOnce`).  Any two runs — any worker counts, any quanta, any interleavings, any visibility, any
+ordering hints — agree on the result of every script both have a result for.  Nothing is assumed
+about the runs. -/
+theorem confluence_results_agree_static (ρ : Nat → Nat → Nat) (ar : Nat → Nat) (snd : Nat → Nat) (prog : Prog)
+    (hwf : ProgWF prog) (hty : RegTyping prog ρ ar) (htab : SingleSenderTable prog ρ ar snd) (hso : SpawnOnce prog)
+    (n1 n2 req1 req2 : Nat) (cs1 cs2 : List Choice) (hn1 : 0 < n1) (hn2 : 0 < n2)
+    (hs1 : ¬ PreStart (C04.reach n1 prog req1 cs1)) (hs2 : ¬ PreStart (C04.reach n2 prog req2 cs2))
+    (k : Nat) (r1 r2 : Res)
+    (h1 : resultOfScript (C04.reach n1 prog req1 cs1) k r1) (h2 : resultOfScript (C04.reach n2 prog req2 cs2) k r2) :
+    r1 = r2 := by
+  have a1 : StreamOK (streamOf prog ρ snd) (C04.reach n1 prog req1 cs1) := by
+    rcases kahn_invariant_static ρ ar snd n1 prog req1 hn1 hwf hty htab hso cs1 with h | h
+    · exact absurd h hs1
+    · exact h.2.1
+  have a2 : StreamOK (streamOf prog ρ snd) (C04.reach n2 prog req2 cs2) := by
+    rcases kahn_invariant_static ρ ar snd n2 prog req2 hn2 hwf hty htab hso cs2 with h | h
+    · exact absurd h hs2
+    · exact h.2.1
+  exact confluence_results_agree ρ ar (streamOf prog ρ snd) prog hwf hty n1 n2 req1 req2 cs1 cs2 hn1 hn2 a1 a2 hs1 hs2 k r1 r2 h1 h2
+
+/-- … and their histories are prefix-related at all times -/
+theorem confluence_histories_agree_static (ρ : Nat → Nat → Nat) (ar : Nat → Nat) (snd : Nat → Nat) (prog : Prog)
+    (hwf : ProgWF prog) (hty : RegTyping prog ρ ar) (htab : SingleSenderTable prog ρ ar snd) (hso : SpawnOnce prog)
+    (n1 n2 req1 req2 : Nat) (cs1 cs2 : List Choice) (hn1 : 0 < n1) (hn2 : 0 < n2)
+    (hs1 : ¬ PreStart (C04.reach n1 prog req1 cs1)) (hs2 : ¬ PreStart (C04.reach n2 prog req2 cs2))
+    (w1 w2 : Wid) (p1 p2 : Pid) (x1 x2 : Proc)
+    (hx1 : ((C04.reach n1 prog req1 cs1).wk w1).procs p1 = some x1)
+    (hx2 : ((C04.reach n2 prog req2 cs2).wk w2).procs p2 = some x2)
+    (hfn : x1.fn = x2.fn) (hle : x1.pc ≤ x2.pc) : x1.acc <+: x2.acc := by
+  have a1 : StreamOK (streamOf prog ρ snd) (C04.reach n1 prog req1 cs1) := by
+    rcases kahn_invariant_static ρ ar snd n1 prog req1 hn1 hwf hty htab hso cs1 with h | h
+    · exact absurd h hs1
+    · exact h.2.1
+  have a2 : StreamOK (streamOf prog ρ snd) (C04.reach n2 prog req2 cs2) := by
+    rcases kahn_invariant_static ρ ar snd n2 prog req2 hn2 hwf hty htab hso cs2 with h | h
+    · exact absurd h hs2
+    · exact h.2.1
+  exact confluence_histories_agree ρ ar (streamOf prog ρ snd) prog hwf hty n1 n2 req1 req2 cs1 cs2 hn1 hn2 a1 a2 hs1 hs2
+    w1 w2 p1 p2 x1 x2 hx1 hx2 hfn hle
+
+/-- no script is ever run by two processes (static `SpawnOnce`) -/
+theorem one_process_per_script (ρ : Nat → Nat → Nat) (ar : Nat → Nat) (snd : Nat → Nat) (prog : Prog)
+    (hwf : ProgWF prog) (hty : RegTyping prog ρ ar) (htab : SingleSenderTable prog ρ ar snd) (hso : SpawnOnce prog)
+    (n req : Nat) (cs : List Choice) (hn : 0 < n) (hs : ¬ PreStart (C04.reach n prog req cs))
+    (w w' : Wid) (p p' : Pid) (x x' : Proc)
+    (hx : ((C04.reach n prog req cs).wk w).procs p = some x) (hx' : ((C04.reach n prog req cs).wk w').procs p' = some x')
+    (hf : x.fn = x'.fn) : p = p' := by
+  rcases kahn_invariant_static ρ ar snd n prog req hn hwf hty htab hso cs with h | h
+  · exact absurd h hs
+  · exact h.2.2 p p' x.fn (Or.inl ⟨w, x, hx, rfl⟩) (Or.inl ⟨w', x', hx', hf.symm⟩)
+
+/-- **Confluence of the confluent class up to progress**: the conclusion of `ConfluenceStatement`
+from static hypotheses on the script table and `ProgressStatement` alone. -/
+theorem confluence_static_partial (ρ : Nat → Nat → Nat) (ar : Nat → Nat) (snd : Nat → Nat) (prog : Prog)
+    (hwf : ProgWF prog) (hty : RegTyping prog ρ ar) (htab : SingleSenderTable prog ρ ar snd) (hso : SpawnOnce prog)
+    (hprogress : ProgressStatement prog)
+    (n1 n2 req1 req2 : Nat) (cs1 cs2 : List Choice) (hn1 : 0 < n1) (hn2 : 0 < n2)
+    (hi1 : (C04.reach n1 prog req1 cs1).idle) (hi2 : (C04.reach n2 prog req2 cs2).idle)
+    (k : Nat) (r : Res) (h1 : resultOfScript (C04.reach n1 prog req1 cs1) k r) :
+    resultOfScript (C04.reach n2 prog req2 cs2) k r := by
+  obtain ⟨r', h2⟩ := hprogress n1 n2 req1 req2 cs1 cs2 hn1 hn2 hi2 k r h1
+  have := confluence_results_agree_static ρ ar snd prog hwf hty htab hso n1 n2 req1 req2 cs1 cs2 hn1 hn2
+    (not_preStart_of_idle hi1) (not_preStart_of_idle hi2) k r r' h1 h2
+  rw [this]; exact h2
+
 /-- the await/spawn/send fragment: from `ProgressStatement` alone -/
 theorem confluence_await_spawn_partial (ρ : Nat → Nat → Nat) (ar : Nat → Nat) (prog : Prog) (hwf : ProgWF prog)
     (hty : RegTyping prog ρ ar) (hnr : NoRecv prog) (hprogress : ProgressStatement prog)
@@ -462,6 +531,36 @@ theorem rProg_singleSender : SingleSenderTable rProg rRho (fun _ => 0) (fun _ =>
   | 1, 1, h => simp [rProg] at h
   | 1, j + 2, h => simp [rProg] at h
   | k + 2, j, h => simp [rProg] at h
+
+theorem rProg_spawnOnce : SpawnOnce rProg := by
+  refine ⟨?_, ?_⟩
+  · intro k j pass h
+    match k, j, h with
+    | 0, 0, h => simp [rProg] at h
+    | 0, 1, h => simp [rProg] at h
+    | 0, 2, h => simp [rProg] at h
+    | 0, 3, h => simp [rProg] at h
+    | 0, j + 4, h => simp [rProg] at h
+    | 1, 0, h => simp [rProg] at h
+    | 1, 1, h => simp [rProg] at h
+    | 1, j + 2, h => simp [rProg] at h
+    | k + 2, j, h => simp [rProg] at h
+  · intro k j pass k' j' pass' f h h'
+    have key : ∀ k j pass, (rProg.getD k [])[j]? = some (Act.spawn f pass) → k = 0 ∧ j = 0 := by
+      intro k j pass h
+      match k, j, h with
+      | 0, 0, _ => exact ⟨rfl, rfl⟩
+      | 0, 1, h => simp [rProg] at h
+      | 0, 2, h => simp [rProg] at h
+      | 0, 3, h => simp [rProg] at h
+      | 0, j + 4, h => simp [rProg] at h
+      | 1, 0, h => simp [rProg] at h
+      | 1, 1, h => simp [rProg] at h
+      | 1, j + 2, h => simp [rProg] at h
+      | k + 2, j, h => simp [rProg] at h
+    obtain ⟨a1, a2⟩ := key k j pass h
+    obtain ⟨b1, b2⟩ := key k' j' pass' h'
+    exact ⟨a1.trans b1.symm, a2.trans b2.symm⟩
 
 /-- its static stream -/
 example : streamOf rProg rRho (fun _ => 0) 1 = [(1, 0), (2, 0)] := by decide
